@@ -140,7 +140,7 @@ impl Case {
                 if returns_result { "    Ok(())\n" } else { "" }
             ));
         }
-        Project { files: files.into_iter().enumerate().map(|(i, s)| (format!("src/f{}.rs", i), s)).collect() }
+        Project { files: files.into_iter().enumerate().map(|(i, s)| (format!("src/f{}.rs", i), s)).collect(), links: vec![] }
     }
 
     /// expected: event name -> payload shape (None = sites disagree)
